@@ -232,24 +232,46 @@ def assignPath (cur : List Stmt) : Val → List Index → Val → Heap → Res H
 
 /-! ### Built-in functions on evaluated arguments -/
 
+/-- the text of a string value -/
+def Val.str? : Val → Option Str
+  | .str t => some t
+  | _ => none
+
+/-- the 17 built-in functions (`_এরর` is handled by the caller, it never returns) -/
+inductive Builtin where
+  | toString | toNum | listPush | listPop | listLen | readLine | error | stringSplit | stringJoin | type
+  | readFile | writeFile | deleteFile | createDir | readDir | deleteDir | fileOrDir
+deriving DecidableEq, Repr
+
+def builtinTable : List (Str × Builtin) :=
+  [ (W.fnToString, .toString), (W.fnToNum, .toNum), (W.fnListPush, .listPush), (W.fnListPop, .listPop),
+    (W.fnListLen, .listLen), (W.fnReadLine, .readLine), (W.fnError, .error), (W.fnStringSplit, .stringSplit),
+    (W.fnStringJoin, .stringJoin), (W.fnType, .type), (W.fnReadFile, .readFile), (W.fnWriteFile, .writeFile),
+    (W.fnDeleteFile, .deleteFile), (W.fnCreateDir, .createDir), (W.fnReadDir, .readDir),
+    (W.fnDeleteDir, .deleteDir), (W.fnFileOrDir, .fileOrDir) ]
+
+/-- `BuiltInFunctionList::get_name` followed by the `match` on the name -/
+def builtinOf? (name : Str) : Option Builtin := (builtinTable.find? (·.1 == name)).map (·.2)
+
 /-- result of `call_built_in_function`'s dispatch: `.inr tag` is the `Err(String)` of the
     built-in, turned into a `RuntimeError` at the current statement by the caller -/
-def callBuiltin (name : Str) (args : List Val) (s : St) : (Val × St) ⊕ Str :=
+def callB (k : Builtin) (args : List Val) (s : St) : (Val × St) ⊕ Str :=
   let err (t : String) : (Val × St) ⊕ Str := .inr t.toList
   let withHeap (h : Heap) (v : Val) : (Val × St) ⊕ Str := .inl (v, { s with heap := h })
   let withWorld (w : Option World) (v : Val) : (Val × St) ⊕ Str :=
     match w with | some w => .inl (v, { s with world := w }) | none => err "fs-error"
-  if name == W.fnToString then
+  match k with
+  | .toString =>
     match args with
     | [.num n] => .inl (.str (numToBnString n), s)
     | [_] => err "must-be-number"
     | _ => err "arity"
-  else if name == W.fnToNum then
+  | .toNum =>
     match args with
     | [.str t] => match bnStringToNum? t with | some b => .inl (.num b, s) | none => err "not-a-number"
     | [_] => err "must-be-string"
     | _ => err "arity"
-  else if name == W.fnListPush then
+  | .listPush =>
     match args with
     | [.list i, v] =>
       match s.heap.lists[i]? with
@@ -268,7 +290,7 @@ def callBuiltin (name : Str) (args : List Val) (s : St) : (Val × St) ⊕ Str :=
       | none => err "PANIC"
     | [_, _, _] => err "must-be-list"
     | _ => err "arity"
-  else if name == W.fnListPop then
+  | .listPop =>
     match args with
     | [.list i] =>
       match s.heap.lists[i]? with
@@ -287,7 +309,7 @@ def callBuiltin (name : Str) (args : List Val) (s : St) : (Val × St) ⊕ Str :=
       | none => err "PANIC"
     | [_, _] => err "must-be-list"
     | _ => err "arity"
-  else if name == W.fnListLen then
+  | .listLen =>
     match args with
     | [.list i] =>
       match s.heap.lists[i]? with
@@ -295,53 +317,53 @@ def callBuiltin (name : Str) (args : List Val) (s : St) : (Val × St) ⊕ Str :=
       | none => err "PANIC"
     | [_] => err "must-be-list"
     | _ => err "arity"
-  else if name == W.fnReadLine then
+  | .readLine =>
     match args with
     | [] => let (line, w) := s.world.readLine; .inl (.str line, { s with world := w })
     | _ => err "arity"
-  else if name == W.fnStringSplit then
+  | .stringSplit =>
     match args with
     | [.str t, .str sep] =>
       let (v, h) := s.heap.allocList ((splitStr t sep).map .str)
       withHeap h v
     | [_, _] => err "must-be-strings"
     | _ => err "arity"
-  else if name == W.fnStringJoin then
+  | .stringJoin =>
     match args with
     | [.list i, .str sep] =>
       match s.heap.lists[i]? with
       | some l =>
-        match l.mapM (fun v => match v with | .str t => some t | _ => none) with
+        match l.mapM Val.str? with
         | some strs => .inl (.str (joinStr sep strs), s)
         | none => err "list-of-strings-only"
       | none => err "PANIC"
     | [_, _] => err "must-be-list-and-string"
     | _ => err "arity"
-  else if name == W.fnType then
+  | .type =>
     match args with
     | [v] => .inl (.str (typeName v), s)
     | _ => err "arity"
-  else if name == W.fnReadFile then
+  | .readFile =>
     match args with
     | [.str p] => match s.world.readFile p with | some c => .inl (.str c, s) | none => err "fs-error"
     | [_] => err "must-be-string"
     | _ => err "arity"
-  else if name == W.fnWriteFile then
+  | .writeFile =>
     match args with
     | [.str p, .str c] => withWorld (s.world.writeFile p c) (.bool true)
     | [_, _] => err "must-be-strings"
     | _ => err "arity"
-  else if name == W.fnDeleteFile then
+  | .deleteFile =>
     match args with
     | [.str p] => withWorld (s.world.deleteFile p) (.bool true)
     | [_] => err "must-be-string"
     | _ => err "arity"
-  else if name == W.fnCreateDir then
+  | .createDir =>
     match args with
     | [.str p] => withWorld (s.world.createDirAll p) (.bool true)
     | [_] => err "must-be-string"
     | _ => err "arity"
-  else if name == W.fnReadDir then
+  | .readDir =>
     match args with
     | [.str p] =>
       match s.world.readDir p with
@@ -349,12 +371,12 @@ def callBuiltin (name : Str) (args : List Val) (s : St) : (Val × St) ⊕ Str :=
       | none => err "fs-error"
     | [_] => err "must-be-string"
     | _ => err "arity"
-  else if name == W.fnDeleteDir then
+  | .deleteDir =>
     match args with
     | [.str p] => withWorld (s.world.deleteDirAll p) (.bool true)
     | [_] => err "must-be-string"
     | _ => err "arity"
-  else if name == W.fnFileOrDir then
+  | .fileOrDir =>
     match args with
     | [.str p] =>
       match s.world.fileOrDir p with
@@ -363,7 +385,13 @@ def callBuiltin (name : Str) (args : List Val) (s : St) : (Val × St) ⊕ Str :=
       | none => err "fs-error"
     | [_] => err "must-be-string"
     | _ => err "arity"
-  else err "not-defined"
+  | .error => err "not-defined"
+
+
+def callBuiltin (name : Str) (args : List Val) (s : St) : (Val × St) ⊕ Str :=
+  match builtinOf? name with
+  | some k => callB k args s
+  | none => .inr "not-defined".toList
 
 /-! ### Rendering (`print_datatype` and the two print statements) -/
 
